@@ -19,12 +19,13 @@ ASSUMPTIONS = ['exactq.cmp (integer comparison after alignment) is correct; CPyt
                'operands are injected exactly through ctx.make_mpf/make_mpc (raw tuples)',
                'nan hashes are not compared (nan is unequal to everything)']
 SHARD_TIMEOUT = {'quick': 300, 'thorough': 2400}
-LEVEL_TEXT = ('exploration: ~2.5*10^5 (quick) / ~6*10^6 (thorough) generated pairs; every ordering/equality result compared with the exact '
+LEVEL_TEXT = ('exploration: ~5*10^5 (quick) / ~6*10^6 (thorough) generated pairs; every ordering/equality result compared with the exact '
               'relation, every pair of equal numbers of different type compared by hash and used as interchangeable dict/set keys')
 LEVEL_NOTE = 'trusted base: vf/exactq.py comparison + CPython hash(); inputs not generated are not covered'
 TECHNIQUE = 'runtime reference-model monitor: exact-relation oracle on comparisons, hash-contract monitor on equal pairs'
 
-CASES = {'quick': 14000, 'thorough': 330000}
+CASES = {'quick': 14000, 'thorough': 170000}
+_BIG = 0.0              # share of precisions drawn from the 2500..3500 list (thorough tier only)
 KINDS = ['cmp-mpf', 'cmp-int', 'cmp-float', 'cmp-sametop', 'cmp-equal', 'cmp-special', 'cmp-bigint', 'eq-complex',
          'hash-int', 'hash-float', 'hash-complex', 'hash-mpc-real', 'hash-minus1', 'hash-special', 'hash-hugeexp']
 HP = Q._HP
@@ -223,7 +224,7 @@ def neg(t):
 # ---------------------------------------------------------------------------------------
 def run_case(mp, rec, r, i):
     kind = KINDS[i % len(KINDS)]
-    p = G.pick_prec(r, big=False)
+    p = G.pick_prec(r, big=(_BIG > 0 and r.random() < _BIG))
     if kind == 'cmp-mpf':
         a = G.raw_real(r, p, special=0.02)
         b = G.raw_real(r, p, special=0.02)
@@ -429,6 +430,9 @@ def check_eq_complex(mp, rec, r, cell, p):
 
 
 def run_shard(shard, rec):
+    global _BIG
+    if shard.get('tier') == 'thorough':
+        _BIG = 0.12
     mp = _mp()
     r = G.rng(PROP, shard['seed'], shard['shard'])
     from vf.instrument import AnchorCount
